@@ -75,12 +75,19 @@ INST(backend::covariant_cast<double, backend::linear<S3>>)
 INST(backend::dereference<S3>)
 INST(backend::affine<backend::clamp<backend::linear<backend::shuffle<S3, std::index_sequence<1, 2, 0>>>>>)
 
-// free utilities with loops / static helper functions
+// free utilities with loops / static helper functions (the index functions only where the layer still offers them as static
+// members of this shape: they are not part of the field API)
+template <typename L, typename... A>
+std::size_t static_index(A &&... a) {
+  if constexpr (requires { L::calculate_index(std::forward<A>(a)...); }) return static_cast<std::size_t>(L::calculate_index(std::forward<A>(a)...));
+  else return 0;
+}
 std::size_t utilities(std::size_t a, std::size_t b) {
   std::size_t n = 0;
   utility::nd_map<utility::nd_size<3>>([&n](utility::nd_size<3> t) { n += t[0] + t[1] + t[2]; }, utility::nd_size<3>{a, b, 2});
-  return n + utility::round_pow2(a) + utility::ipow(a, b) + MT3::calculate_index({a, b, a}) + MF2::calculate_index({a, b}) +
-         H2::calculate_index({a, b}, utility::nd_size<2>{8, 8});
+  return n + utility::round_pow2(a) + utility::ipow(a, b) + static_index<MT3>(typename MT3::contravariant_input_t::vector_t{a, b, a}) +
+         static_index<MF2>(typename MF2::contravariant_input_t::vector_t{a, b}) +
+         static_index<H2>(typename H2::contravariant_input_t::vector_t{a, b}, utility::nd_size<2>{8, 8});
 }
 
 // layout / storage conversions between every pair of orderings (the copy routines of strided, morton and hilbert)
